@@ -24,6 +24,7 @@ Definition spec_step (m : list item) (o : op) : list item * out :=
   | OCount => (m, RNum (Z.of_nat (length m)))
   | ORemoveIf md r => let m' := filter (negp (modp md r)) m in (m', RNum (Z.of_nat (length m) - Z.of_nat (length m')))
   | OCopy => (m, RUnit)
+  | OAddAt k v | OInsertNoMem k v => if sp_mem m k then (m, RBool false) else ((k, v) :: m, RBool true)
   end.
 
 (* outputs are compared literally, except that a traversal may come in any order *)
@@ -42,6 +43,34 @@ Fixpoint spec_run (m : list item) (os : list op) (xs : list out) : list item * l
          | (m1, y) => match spec_run m1 os' xs' with (m', ys) => (m', y :: ys) end
          end
   | _, _ => (m, [])
+  end.
+
+(* ---- the abstract pair of maps + holder ---- *)
+Definition wspec : Type := (list item * list item * option item)%type.
+Definition wspec_step (m : wspec) (o : wop) : wspec * out :=
+  match m with
+  | (ma, mb, e) =>
+    match o with
+    | WA o => match spec_step ma o with (ma', x) => ((ma', mb, e), x) end
+    | WB o => match spec_step mb o with (mb', x) => ((ma, mb', e), x) end
+    | WExtract k =>
+      match e with
+      | Some _ => (m, RBool false)
+      | None => match sp_find ma k with
+                | Some v => ((sp_remove k ma, mb, Some (k, v)), RBool true)
+                | None => (m, RBool false)
+                end
+      end
+    | WInsertExt =>
+      match e with
+      | None => (m, RBool false)
+      | Some (k, v) => if sp_mem ma k then (m, RBool false) else (((k, v) :: ma, mb, None), RBool true)
+      end
+    | WSwap => ((mb, ma, e), RUnit)
+    | WMoveAB => (([], ma, e), RUnit)
+    | WMergeAB =>   (* union with destination priority; the source keeps the refused items *)
+      ((filter (fun kv => sp_mem mb (fst kv)) ma, filter (fun kv => negb (sp_mem mb (fst kv))) ma ++ mb, e), RUnit)
+    end
   end.
 
 Lemma sp_find_in (m : list item) k v : NoDup (map fst m) -> In (k, v) m -> sp_find m k = Some v.
@@ -77,4 +106,75 @@ Proof.
   { rewrite <- (map_id rest) at 2. apply map_ext_in. intros [k' v'] Hin. simpl.
     destruct (Z.eqb_spec k' k); auto. subst. exfalso. apply H1. apply in_keys. eauto. }
   rewrite E. reflexivity.
+Qed.
+
+(* ---- facts used by the MergeTo refinement ---- *)
+Lemma sp_mem_iff (m : list item) k : sp_mem m k = true <-> In k (map fst m).
+Proof.
+  unfold sp_mem, sp_find. destruct (bfind k m 0) as [[pos v]|] eqn:E; split; intros H; auto; try discriminate.
+  - apply bfind_spec0 in E. apply nth_error_In in E. apply in_keys. eauto.
+  - exfalso. eapply bfind_none; eauto.
+Qed.
+
+Lemma sp_mem_cons (m : list item) k v k' : sp_mem ((k, v) :: m) k' = (k' =? k) || sp_mem m k'.
+Proof.
+  apply Bool.eq_true_iff_eq. rewrite orb_true_iff, !sp_mem_iff, Z.eqb_eq. simpl. intuition.
+Qed.
+
+Lemma sp_mem_perm (m m' : list item) k : Permutation m m' -> sp_mem m k = sp_mem m' k.
+Proof.
+  intros P. apply Bool.eq_true_iff_eq. rewrite !sp_mem_iff. split; apply Permutation_in; [|apply Permutation_sym]; apply Permutation_map; exact P.
+Qed.
+
+Fixpoint moved_of (its mb : list item) : list item :=
+  match its with
+  | [] => []
+  | (k, v) :: r => if sp_mem mb k then moved_of r mb else (k, v) :: moved_of r ((k, v) :: mb)
+  end.
+
+Lemma moved_of_filter : forall its mb, NoDup (map fst its) ->
+  moved_of its mb = filter (fun kv => negb (sp_mem mb (fst kv))) its.
+Proof.
+  induction its as [|[k v] r IH]; intros mb ND; simpl; auto. inversion ND; subst.
+  destruct (sp_mem mb k) eqn:E; simpl; [apply IH; auto|]. f_equal. rewrite IH by auto.
+  apply filter_ext_in. intros [k' v'] Hin. simpl. rewrite sp_mem_cons.
+  destruct (Z.eqb_spec k' k); auto. subst. exfalso. apply H1. apply in_keys. eauto.
+Qed.
+
+Lemma filter_partition_perm {A} (f : A -> bool) l : Permutation l (filter f l ++ filter (fun x => negb (f x)) l).
+Proof.
+  induction l; simpl; auto. destruct (f a); simpl; [apply perm_skip; auto|].
+  apply Permutation_cons_app. auto.
+Qed.
+
+Fixpoint wspec_run (m : wspec) (os : list wop) (xs : list out) : wspec * list out :=
+  match os, xs with
+  | o :: os', x :: xs' =>
+    if is_exn x then match wspec_run m os' xs' with (m', ys) => (m', RExn :: ys) end
+    else match wspec_step m o with
+         | (m1, y) => match wspec_run m1 os' xs' with (m', ys) => (m', y :: ys) end
+         end
+  | _, _ => (m, [])
+  end.
+
+(* a MergeTo that throws in the middle gives only the basic guarantee; histories containing one are excluded below *)
+Fixpoint no_merge_exn (os : list wop) (xs : list out) : Prop :=
+  match os, xs with
+  | o :: os', x :: xs' => (match o with WMergeAB => x <> RExn | _ => True end) /\ no_merge_exn os' xs'
+  | _, _ => True
+  end.
+
+Lemma spec_step_not_exn m o : snd (spec_step m o) <> RExn.
+Proof. destruct o; simpl; repeat match goal with |- context [if ?e then _ else _] => destruct e end; simpl; discriminate. Qed.
+
+Lemma wspec_step_not_exn m o : snd (wspec_step m o) <> RExn.
+Proof.
+  destruct m as [[ma mb] e]. destruct o as [o|o|k| | | |]; simpl.
+  - pose proof (spec_step_not_exn ma o). destruct (spec_step ma o); auto.
+  - pose proof (spec_step_not_exn mb o). destruct (spec_step mb o); auto.
+  - destruct e; simpl; [discriminate|]. destruct (sp_find ma k); simpl; discriminate.
+  - destruct e as [[k v]|]; simpl; [|discriminate]. destruct (sp_mem ma k); simpl; discriminate.
+  - discriminate.
+  - discriminate.
+  - discriminate.
 Qed.
